@@ -299,7 +299,7 @@ func c08Pairs(r *rand.Rand, rep *runReport, cwd string, n int) {
 	} else if n > 100 {
 		nb = 24
 	}
-	rulesText, layout := c08RuleLayout(c08RulePool[:8])
+	rulesText, layout := c08RuleLayout(c08GoodRules())
 	type job struct {
 		base int
 		step *c08Step
